@@ -303,6 +303,7 @@ func (r *Run) LibPair(name string, o PairOpts) (cli, srv *websocket.Conn, ce, se
 // RawOpts configures a lib-vs-raw scenario.
 type RawOpts struct {
 	LibClient bool // library plays the client role
+	ForceExt  bool // (library as client) answer with Ext although the client offered nothing
 	Mode      websocket.CompressionMode
 	Thresh    int
 	// Ext is the Sec-WebSocket-Extensions value the raw side uses: the
@@ -348,7 +349,7 @@ func (r *Run) LibVsRaw(name string, o RawOpts) (c *websocket.Conn, lib, raw *sim
 			rec.Header().Set("Upgrade", "websocket")
 			rec.Header().Set("Connection", "Upgrade")
 			rec.Header().Set("Sec-WebSocket-Accept", AcceptKey(req.Header.Get("Sec-WebSocket-Key")))
-			if o.Ext != "" && req.Header.Get("Sec-WebSocket-Extensions") != "" {
+			if o.Ext != "" && (req.Header.Get("Sec-WebSocket-Extensions") != "" || o.ForceExt) {
 				rec.Header().Set("Sec-WebSocket-Extensions", o.Ext)
 			}
 			rec.WriteHeader(http.StatusSwitchingProtocols)
